@@ -1,7 +1,8 @@
 import Pk.Predict
 /-! `score_trajectory`, `_weights_from_data_matrix` and the scorer wiring of
 `KoopmanPipeline.make_scorer` over exact rationals, for the error metrics
-(`neg_mean_squared_error`, `neg_mean_absolute_error`).  Core Lean only; executable. -/
+(`neg_mean_squared_error`, `neg_mean_absolute_error`, `neg_mean_absolute_percentage_error`; the
+"greater is better" metrics are in `Pk/ScoreG.lean`).  Core Lean only; executable. -/
 namespace Pk
 
 /-- weights of one episode of `n` (already IC-stripped) samples -/
@@ -18,6 +19,7 @@ def weightsOf {ρ : Type} (nSteps : Option Nat) (γ : Rat) (X : Mat ρ) : List R
 inductive Metric where
   | mse
   | mae
+  | mape     -- `neg_mean_absolute_percentage_error`: |pred − true| / max(|true|, eps)
 deriving Repr, DecidableEq
 
 inductive ErrScore where
@@ -34,10 +36,18 @@ inductive ScoreOut where
   | valueError
 deriving Repr, DecidableEq
 
+/-- `np.finfo(np.float64).eps`, the floor scikit-learn puts under `|y_true|` -/
+def mapeEps : Rat := 1 / 4503599627370496
+
+/-- error of one cell: `a` predicted, `b` expected -/
 def cellErr (m : Metric) (a b : Rat) : Rat :=
   match m with
   | .mse => (a - b) * (a - b)
   | .mae => if a - b < 0 then b - a else a - b
+  | .mape =>
+    let d := if a - b < 0 then b - a else a - b
+    let s := if b < 0 then -b else b
+    d / (if s < mapeEps then mapeEps else s)
 
 def rsum (l : List Rat) : Rat := l.foldl (· + ·) 0
 
